@@ -1,10 +1,12 @@
 /-
   C07 — optimistic transactions are serializable.
+  Stage 2 (bottom of the file): whole histories, by induction over events (Lemmas/SsiHist).
   Stage 1: (i) every read method's result depends on the snapshot only through the footprint it
   records, (ii) a commit that passes validation against the transactions committed since its
   snapshot observes exactly what it would observe if executed at its commit point.
 -/
 import FjallModel.Lemmas.Ssi
+import FjallModel.Lemmas.SsiHist
 namespace Fjall.Tx
 open Fjall Fjall.Spec
 
@@ -80,6 +82,52 @@ theorem c07_counterexample_size_of_unmarked :
 example :
     hasConflict (xrun { instant := 3, base := { snap := fun _ => [([0x62], some [1])] } }
       [.range 0 (.incl [0x61]) (.excl [0x63]), .insert 0 [0x7a] [9]]).1.reads [(0, [0x78])] = false := by
+  decide
+
+/-! ## Whole histories -/
+
+/-- **Serializability of whole histories.**  For every history of optimistic transactions — any
+    number open at once, begins, reads and writes of all kinds, commits (validated or refused),
+    rollbacks and tracker GC runs interleaved in any order — the transactions that committed
+    writes, taken in commit order and executed *one after the other*, each from the log its
+    predecessors produced, return exactly the results they returned in the concurrent history and
+    write exactly the batches that make up the committed log.  (`i'` = the snapshot instant the
+    serial execution would have: irrelevant.)  Pruning of the conflict table is covered: it never
+    removes an entry an open transaction still has to be validated against (tracker invariant). -/
+theorem c07_serializable (evs : List HEv) :
+    let s := hrun {} evs
+    Chain s.done s.db.log ∧
+    ∀ d ∈ s.done, ∀ i', (xrun (fresh i' (stateTop d.before)) d.prog).2 = d.outs ∧
+      (xrun (fresh i' (stateTop d.before)) d.prog).1.base.commitBatch = d.batch := by
+  intro s
+  have h := hrun_inv {} evs hinv_init
+  exact ⟨h.chain, h.doneOk⟩
+
+/-- **Read-only transactions** observe the committed state as of their snapshot: executed alone
+    right after the last commit their snapshot contains, they return the same results. -/
+theorem c07_readonly_at_snapshot (evs : List HEv) :
+    ∀ d ∈ (hrun {} evs).doneRo, ∀ i', (xrun (fresh i' (stateTop d.before)) d.prog).2 = d.outs :=
+  (hrun_inv {} evs hinv_init).roOk
+
+/-- a refused commit leaves the committed log untouched -/
+theorem c07_conflict_no_effect (db : SsiDb) (t : OTx) (h : (db.commit t).2 = .conflict) :
+    (db.commit t).1.log = db.log ∧ (db.commit t).1.seqno = db.seqno := by
+  unfold SsiDb.commit at h ⊢
+  by_cases hm : t.base.mem.isEmpty = true
+  · simp [hm] at h
+  · have hm' : t.base.mem.isEmpty = false := by simpa using hm
+    simp only [hm', Bool.false_eq_true, if_false] at h ⊢
+    by_cases hc : (db.committed.any fun c => decide (c.ts ≥ t.instant + 1) && hasConflict t.reads c.keys) = true
+    · simp [hc]
+    · have hc' : (db.committed.any fun c => decide (c.ts ≥ t.instant + 1) && hasConflict t.reads c.keys) = false := by simpa using hc
+      simp [hc'] at h
+
+/-! Non-vacuity: two transactions race on a write skew; the second commit is refused, the first is
+    in `done`; a third one commits afterwards. -/
+example :
+    let s := hrun {} [.begin, .begin, .op 0 (.get 1 [1]), .op 1 (.get 1 [2]), .op 0 (.insert 1 [2] [9]),
+      .op 1 (.insert 1 [1] [9]), .commit 1, .commit 0, .begin, .op 0 (.get 1 [1]), .op 0 (.insert 1 [3] [3]), .commit 0]
+    s.done.length = 2 ∧ s.db.log.length = 2 ∧ s.open_.length = 0 := by
   decide
 
 end Fjall.Tx
